@@ -551,6 +551,71 @@ def run(ck):
                     make_valid(keys[2], c.stored, "storage", [], force="higher")], "directed")
             ck.hit("directed:int-after-stored-nonint-seqnum")
 
+        # the freshness memory must survive a loss of the introducer connection: K's seqnum 3 then 5 are accepted over a
+        # (fake) introducer connection, the connection drops (the callback the client registered with notifyOnDisconnect
+        # fires), optionally a new connection is made, and then a stale announcement of K arrives: the captured seqnum 3
+        # replayed byte for byte, a freshly signed lower one, or a different one carrying the same seqnum 5.
+        class FakePublisher(object):
+            version = {ic_mod.V2: {}}
+            def __init__(self):
+                self.on_disconnect = []
+            def notifyOnDisconnect(self, cb, *a, **kw):
+                self.on_disconnect.append((cb, a, kw))
+            def callRemote(self, name, *args):
+                return defer.succeed(None)
+
+        for stale_kind in ("replay-lower", "fresh-lower", "equal-different"):
+            for reconnect in (False, True):
+                c = ClientUnderTest("x")
+                pub = FakePublisher()
+                c.ic._got_versioned_introducer(pub)
+                old3 = Item("valid:higher", real_sign(payload("storage", 3), keys[0]), keys[0])
+                new5 = Item("valid:higher", real_sign(payload("storage", 5), keys[0]), keys[0])
+                o = c.feed([old3], "directed-disconnect") + c.feed([new5], "directed-disconnect")
+                if o != ["delivered", "delivered"]:
+                    continue          # reported by feed()
+                stale = {"replay-lower": Item("valid:replay", old3.ann_t, keys[0]),
+                         "fresh-lower": Item("valid:lower", real_sign(payload("storage", 4), keys[0]), keys[0]),
+                         "equal-different": Item("valid:equal", real_sign(payload("storage", 5), keys[0]), keys[0])}[stale_kind]
+                if c.feed([stale], "directed-disconnect") != ["not-delivered"]:
+                    continue          # control (connected): reported by feed() under the generic key
+                # --- the connection drops
+                if pub.on_disconnect:
+                    for cb, a, kw in pub.on_disconnect:
+                        cb(*a, **kw)
+                else:
+                    c.ic._disconnected()
+                while env.evq.pending():
+                    env.evq._turn()
+                if reconnect:
+                    c.ic._got_versioned_introducer(FakePublisher())
+                # --- the first thing to arrive afterwards is the stale announcement, with an unrelated good one behind it
+                other = make_valid(keys[1], c.stored, "storage", [], force="higher")
+                c.batch = Batch([stale, other])
+                del c.log[:]
+                c.ic.remote_announce_v2(c.batch)
+                while env.evq.pending():
+                    env.evq._turn()
+                c.batch = None
+                ck.mon("client-automaton")
+                ck.hit("directed:stale-after-disconnect")
+                ck.hit("directed:stale-after-disconnect:" + stale_kind + (":reconnected" if reconnect else ""))
+                redelivered = [a for (pos, n, k, a) in c.log if pos == 0]
+                late = c.subscribe("storage", "late-after-disconnect")
+                while env.evq.pending():
+                    env.evq._turn()
+                now_stored = [a for (k, a) in late if k == keys[0].v0]
+                if redelivered or any(a == stale.payload for a in now_stored):
+                    ck.violation("stale-seqnum-accepted-after-introducer-disconnect",
+                                 "after seqnum 5 had been accepted for (storage, K) and the introducer connection was lost%s, a "
+                                 "correctly signed announcement of K with seqnum %r (%s) replaced the stored one"
+                                 % (" and re-made" if reconnect else "", stale.payload.get("seqnum"), stale_kind),
+                                 {"stale": stale.describe(), "accepted_before": [3, 5], "reconnected": reconnect,
+                                  "delivered_to_subscriber": [a.get("seqnum") for a in redelivered],
+                                  "late_subscriber_sees_seqnum": [a.get("seqnum") for a in now_stored]})
+                ck.case("directed-disconnect", key=(stale.ann_t, reconnect, "after-disconnect"), nontrivial=True,
+                        sample={"stale": stale_kind, "reconnected": reconnect, "redelivered": bool(redelivered)})
+
         # -------------------------------------------------------------- 2. random histories (client, server, chained client)
         nhist = 120 if ck.tier == "quick" else 600
         for h in range(nhist):
@@ -610,7 +675,7 @@ def run(ck):
     ck.require_monitor("client-automaton", "server-automaton", "late-subscriber-catchup", "server-late-subscriber-catchup")
     ck.require_reach(*["directed:%s:%s" % (k, w) for k in REUSE_KINDS for w in ("same-batch", "later-batch")])
     ck.require_reach(*["class:" + k for k in REUSE_KINDS])
-    ck.require_reach("class:genuine-just-before-its-forgery")
+    ck.require_reach("class:genuine-just-before-its-forgery", "directed:stale-after-disconnect")
     ck.require_reach("accepted:new", "accepted:higher-seqnum", "rejected:unauthenticated", "rejected:equal-seqnum",
                      "rejected:lower-seqnum", "rejected:duplicate", "rejected:no-valid-seqnum", "rejected:unsubscribed-service",
                      "server-accepted:higher-seqnum", "server-rejected:unauthenticated", "server-rejected:lower-seqnum",
